@@ -151,8 +151,12 @@ struct SV {
                 case PUSH_RREF: x.push_back(T(val)); break;
                 case PUSH_CREF: {
                     if constexpr (CP) {
-                        T t(val);
-                        x.push_back(t);
+                        if (sz > 0 && (op.b & 32U) != 0) { // the argument aliases an element (valid for std::vector)
+                            x.push_back(x[op.a % sz]);
+                        } else {
+                            T t(val);
+                            x.push_back(t);
+                        }
                     }
                     break;
                 }
@@ -164,8 +168,12 @@ struct SV {
                 }
                 case INSERT_CREF: {
                     if constexpr (CP) {
-                        T t(val);
-                        x.insert(x.begin() + pos, t);
+                        if (sz > 0 && (op.b & 32U) != 0) { // the argument aliases an element (valid for std::vector)
+                            x.insert(x.begin() + pos, x[op.c % sz]);
+                        } else {
+                            T t(val);
+                            x.insert(x.begin() + pos, t);
+                        }
                         h.middle |= (pos > 0 && static_cast<std::size_t>(pos) < sz);
                     }
                     break;
@@ -173,8 +181,12 @@ struct SV {
                 case INSERT_N: {
                     if constexpr (CP) {
                         auto n = pick(op.b, room);
-                        T t(val);
-                        x.insert(x.begin() + pos, n, t);
+                        if (sz > 0 && (op.c & 32U) != 0) { // the argument aliases an element (valid for std::vector)
+                            x.insert(x.begin() + pos, n, x[op.c % sz]);
+                        } else {
+                            T t(val);
+                            x.insert(x.begin() + pos, n, t);
+                        }
                         h.middle |= (n > 0 && pos > 0 && static_cast<std::size_t>(pos) < sz);
                     }
                     break;
@@ -395,7 +407,7 @@ struct SV {
             }
         }
         if (h.err.empty()) { h.err = lt::check_empty(); }
-        h.labels("static_vector", stats, k);
+        h.labels("static_vector", stats, k, MA ? "mvsf" : "mv");
         return h.err;
     }
 };
@@ -527,7 +539,7 @@ struct IV {
             }
         }
         if (h.err.empty()) { h.err = lt::check_empty(); }
-        h.labels("inplace_vector", stats, k);
+        h.labels("inplace_vector", stats, k, "v");
         return h.err;
     }
 };
@@ -682,7 +694,7 @@ struct STK {
             }
         }
         if (h.err.empty()) { h.err = lt::check_empty(); }
-        h.labels("stack", stats, k);
+        h.labels("stack", stats, k, MA ? "vsf" : "v");
         return h.err;
     }
 };
@@ -694,12 +706,20 @@ using TCO = lt::TCO;
 #define IVC(T, N) Config{"inplace_vector<" #T "," #N ">", &IV<T, N>::run, I_NCODES, icode_names, (N) <= 2}
 #define STC(T, N) Config{"stack<" #T ",static_vector<" #T "," #N ">>", &STK<T, N>::run, S_NCODES, scode_names, (N) <= 2}
 
+// The TU is built twice (registry flags -DC03_PART=1 / =2) so that the two halves compile in parallel.
+#ifndef C03_PART
+#define C03_PART 0
+#endif
 void init_configs()
 {
     configs() = {
+#if C03_PART == 0 || C03_PART == 1
         SVC(TMO, 0), SVC(TMO, 1), SVC(TMO, 2), SVC(TMO, 4), SVC(TMO, 16), SVC(TCO, 0), SVC(TCO, 1), SVC(TCO, 2), SVC(TCO, 4), SVC(TCO, 16), SVC(TCM, 2), SVC(TCM, 5),
+#endif
+#if C03_PART == 0 || C03_PART == 2
         IVC(TMO, 0), IVC(TMO, 1), IVC(TMO, 2), IVC(TMO, 4), IVC(TMO, 16), IVC(TCO, 0), IVC(TCO, 1), IVC(TCO, 2), IVC(TCO, 4), IVC(TCO, 16), IVC(TCM, 3),
         STC(TMO, 1), STC(TMO, 4), STC(TCO, 1), STC(TCO, 4), STC(TCM, 2), STC(TCM, 5),
+#endif
     };
 }
 
@@ -710,7 +730,7 @@ void vf_run(vf::Ctx& c)
     init_configs();
     // fill prefix: three elements into A, two into B (re-mapped to what the capacity allows)
     c03::run_pairs(c, {RawOp{0, 0, 0, 2}, RawOp{0, 0, 0, 4}, RawOp{0, 0, 0, 6}, RawOp{0, 0, 0, 3}, RawOp{0, 0, 0, 5}});
-    c03::run_histories(c, 350, 6000, 30);
+    c03::run_histories(c, 700, 8000, 30);
 }
 
 std::string vf_replay(std::string const&, std::string const& cs)
